@@ -287,6 +287,96 @@ theorem diff_rows (a b : TISet) (ra : Array Row) (ha : a.rows = some ra) (hb : S
     have := fixTrim_le o.st k (o.en[k]'(hse ▸ hks))
     exact Int.le_trans this c2
 
+/-! ## split: pieces carry the row of the interval that contains them -/
+
+theorem splitPieces_inside (s e size : Int) (hsz : 0 < size) (fuel : Nat) (cur : Int) (acc : Array (Int × Int))
+    (q : Int × Int) (hq : q ∈ splitPieces s e size fuel cur acc) :
+    q ∈ acc ∨ (cur ≤ q.1 ∧ q.2 ≤ e) := by
+  induction fuel generalizing cur acc with
+  | zero =>
+    have : splitPieces s e size 0 cur acc = acc := rfl
+    rw [this] at hq; exact Or.inl hq
+  | succ fuel ih =>
+    have e1 : splitPieces s e size (fuel + 1) cur acc =
+        if cur < e then
+          splitPieces s e size fuel (cur + size)
+            (if (if cur + size < e then cur + size else e) - cur ≥ size then
+              acc.push (cur, (if cur + size < e then cur + size else e) - 1000) else acc)
+        else acc := rfl
+    rw [e1] at hq
+    by_cases hlt : cur < e
+    · rw [if_pos hlt] at hq
+      rcases ih (cur + size) _ hq with h | h
+      · by_cases hc : (if cur + size < e then cur + size else e) - cur ≥ size
+        · rw [if_pos hc] at h
+          simp only [Array.mem_push] at h
+          rcases h with h | h
+          · exact Or.inl h
+          · right
+            subst h
+            simp only
+            split <;> omega
+        · rw [if_neg hc] at h; exact Or.inl h
+      · exact Or.inr ⟨by omega, h.2⟩
+    · rw [if_neg hlt] at hq; exact Or.inl hq
+
+/-- the (piece, row) pairs `ep.split(size)` hands to the constructor -/
+def splitParts (a : TISet) (size : Int) (ra : Array Row) : List ((Int × Int) × Row) :=
+  (List.range a.iv.size).flatMap fun k =>
+    if (a.iv[k]!).2 - (a.iv[k]!).1 > size then
+      ((splitPieces (a.iv[k]!).1 (a.iv[k]!).2 size (((a.iv[k]!).2 - (a.iv[k]!).1) / size + 2).toNat (a.iv[k]!).1 #[]).toList.map
+        fun q => (q, ra[k]!))
+    else []
+
+theorem split_eq (a : TISet) (size : Int) (hpos : 0 < size) (ra : Array Row) (ha : a.rows = some ra) :
+    a.split size = TISet.new ((splitParts a size ra).map (·.1.1)).toArray ((splitParts a size ra).map (·.1.2)).toArray
+      (by simp) (some ((splitParts a size ra).map (·.2)).toArray) := by
+  unfold TISet.split
+  have hs0 : ¬ size ≤ 0 := by omega
+  simp only [hs0, if_false, ha, Option.getD_some]
+  rw [dif_pos (by simp)]
+  rfl
+
+theorem splitParts_inside (a : TISet) (size : Int) (hpos : 0 < size) (ra : Array Row) :
+    ∀ x ∈ splitParts a size ra, ∃ k, ∃ hk : k < a.iv.size, x.2 = ra[k]! ∧ a.iv[k].1 ≤ x.1.1 ∧ x.1.2 ≤ a.iv[k].2 := by
+  intro x hx
+  unfold splitParts at hx
+  simp only [List.mem_flatMap, List.mem_range] at hx
+  obtain ⟨k, hk, hx⟩ := hx
+  split at hx
+  · simp only [List.mem_map, Array.mem_toList_iff] at hx
+    obtain ⟨q, hq, rfl⟩ := hx
+    rcases splitPieces_inside _ _ size hpos _ _ _ q hq with h | h
+    · simp at h
+    · refine ⟨k, hk, rfl, ?_, ?_⟩
+      · simpa [getElem!_pos a.iv k hk] using h.1
+      · simpa [getElem!_pos a.iv k hk] using h.2
+  · simp at hx
+
+/-- **split: every piece carries the row of the interval that contains it.**  Whenever `ep.split(size)` keeps
+metadata, each of its intervals lies inside an interval `k` of `ep` and carries row `k` -/
+theorem split_rows (a : TISet) (size : Int) (hpos : 0 < size) (ra : Array Row) (ha : a.rows = some ra) (r : Array Row)
+    (hr : (a.split size).rows = some r) :
+    ∀ j, (hj : j < (a.split size).iv.size) → ∃ hj' : j < r.size, ∃ k, ∃ hk : k < a.iv.size,
+      r[j] = ra[k]! ∧ a.iv[k].1 ≤ (a.split size).iv[j].1 ∧ (a.split size).iv[j].2 ≤ a.iv[k].2 := by
+  rw [split_eq a size hpos ra ha] at hr ⊢
+  obtain ⟨h1, h2, h3⟩ := new_rows_faithful _ _ _ _ r hr
+  simp only [Option.some.injEq] at h1
+  intro j hj
+  have hjp : j < (splitParts a size ra).length := by rw [h2] at hj; simpa using hj
+  obtain ⟨hj2, e⟩ := h3 j (by simpa using hjp)
+  obtain ⟨k, hk, e1, e2, e3⟩ := splitParts_inside a size hpos ra _ (List.getElem_mem hjp)
+  refine ⟨by rw [← h1]; simpa using hjp, k, hk, ?_, ?_, ?_⟩
+  · simp [← h1, e1]
+  · rw [e]; simpa using e2
+  · rw [e]
+    simp only
+    have := fixTrim_le ((splitParts a size ra).map (·.1.1)).toArray j
+      (((splitParts a size ra).map (·.1.2)).toArray[j]'(by simpa using hjp))
+    have e4 : ((splitParts a size ra).map (·.1.2)).toArray[j]'(by simpa using hjp) = (splitParts a size ra)[j].1.2 := by simp
+    omega
+
+
 /-! ## label-indexed frames: `loc` follows labels, `iloc` follows positions, and they coincide on
 the `0..n-1` index every IntervalSet has -/
 
